@@ -304,14 +304,15 @@ def lean_build(module: str, want_driver: bool = True) -> BuildResult:
         af.write_text(audit)
         rc, out = _run(["lake", "env", "lean", str(af)], LEAN_DIR, 1200)
         r.log += out
-        for m in re.finditer(r"'([^']+)' depends on axioms: \[([^\]]*)\]", out):
+        # (a theorem name may itself end in primes: `foo'`)
+        for m in re.finditer(r"'([^\s']+'*)' depends on axioms: \[([^\]]*)\]", out):
             axs = [a.strip() for a in m.group(2).replace("\n", " ").split(",") if a.strip()]
             bad = [a for a in axs if a not in ALLOWED_AXIOMS]
             if bad:
                 r.axiom_violations[m.group(1)] = bad
             else:
                 r.discharged.append(m.group(1))
-        for m in re.finditer(r"'([^']+)' does not depend on any axioms", out):
+        for m in re.finditer(r"'([^\s']+'*)' does not depend on any axioms", out):
             r.discharged.append(m.group(1))
         if rc != 0 and not r.discharged:
             r.build_ok = False
